@@ -97,6 +97,22 @@ def decide(ctx, prop, rows, gens):
             st["unmodelled"] += 1
             continue
         o = r["impl"]
+        # which inputs of this run lie inside the fragments the tree theorems are proved for
+        tf = next((x[2:] for x in m if x.startswith("T:")), None)
+        if tf:
+            flags = dict(kv.split("=") for kv in tf.split(","))
+            fr = st.setdefault("inside_proved_fragment", {})
+            if r["op"] == "jsonenc" and prop == "C06":
+                fr["values"] = fr.get("values", 0) + 1
+                fr["rt_roundtrip applies"] = fr.get("rt_roundtrip applies", 0) + (flags.get("rt") == "true")
+            elif r["op"] == "jsonenc" and prop == "C07":
+                fr["values"] = fr.get("values", 0) + 1
+                fr["toJ_conforms applies"] = fr.get("toJ_conforms applies", 0) + (flags.get("wf") == "true")
+            elif r["op"] == "jsondec" and prop == "C08":
+                fr["documents"] = fr.get("documents", 0) + 1
+                conf_ok = len(m) > 1 and m[1].startswith("R:conforms=true")
+                fr["valid_document_cycle applies"] = fr.get("valid_document_cycle applies", 0) + (flags.get("frag") == "true" and flags.get("leaves") == "true" and conf_ok)
+                fr["bad_shape_rejected applies"] = fr.get("bad_shape_rejected applies", 0) + (flags.get("frag") == "true" and flags.get("shape") == "false")
         if r["op"] == "jsonenc" and prop in ("C06", "C07"):
             st["evaluations"] += 1
             mc, md = m[0][6:], m[1][5:]
@@ -286,5 +302,6 @@ def check(ctx, prop, modules, theorems, rule, explanation, assumptions, level="p
         "samples": st["samples"], "programs": gout.get("ok", 0), "generator_outcomes": gout, "agree_with_model": st["agree_model"],
         "agree_with_reference": st["agree_ref"], "disagreements_checked": st.get("violations_total", 0), "unmodelled": st["unmodelled"],
         "case_kinds": st["kinds"], "harness_stats": meta.get("stats", {}), "explanation": explanation,
+        "inside_proved_fragment": st.get("inside_proved_fragment", {}),
     })
     return core.finish(ctx, level, cov, assumptions)
